@@ -64,6 +64,22 @@ def ldlStep (cmd : String) : P (List String) := do
     | .ok (L, D) =>
       let x := match ldltSolve n a b with | .ok y => y | .error _ => Vec.const n QQ.poison
       pure ["info 0", s!"D {vecStr D}", s!"L {matStr L}", s!"x {vecStr x}"]
+  | "ldl.denseseq" =>
+    let n ← nat
+    let _up ← nat
+    let cnt ← nat
+    let mut ms : Array (Mat QQ n n) := #[]
+    for _ in [0:cnt] do
+      ms := ms.push (← mat n n)
+    let b ← vec n
+    let mut out : List String := []
+    for a in ms do
+      match ldlt n a with
+      | .error _ => out := out ++ ["info 1"]
+      | .ok (_, D) =>
+        let x := match ldltSolve n a b with | .ok y => y | .error _ => Vec.const n QQ.poison
+        out := out ++ ["info 0", s!"D {vecStr D}", s!"x {vecStr x}"]
+    pure out
   | "ldl.densem" =>
     let n ← nat
     let _up ← nat
